@@ -2,65 +2,75 @@
 (* C19, server wiring (frappy/server.py run / restart / shutdown / _interfaceThread,   *)
 (* frappy/protocol/interface/tcp.py TCPServer.__init__): "a TCP port it really listens *)
 (* on", "the node identity".                                                           *)
-(* A node is configured with a list of interfaces; each comes up or fails.  The        *)
-(* responder of generation g carries the identity (description) the node had when it   *)
-(* was (re)started the g-th time.  A broadcast discover request reaches every          *)
-(* responder that is still running.  Demanded: while the node serves, a request is     *)
-(* answered exactly once per TCP port that is open NOW, with the identity of NOW; a    *)
-(* node that is shut down (or never came up) is silent.                                *)
+(* A node is configured with a list of interfaces (tcp / ws).  At every (re)start each  *)
+(* of them comes up or fails anew (a port may have been taken meanwhile, or be free     *)
+(* again).  The responder of generation g carries the identity (description) the node   *)
+(* had when it was (re)started the g-th time and the ports it was given then.  A        *)
+(* broadcast discover request reaches every responder that is still running.  Demanded: *)
+(* while the node serves, a request is answered exactly once per TCP port that is open  *)
+(* NOW, with the identity of NOW; a node that is shut down (or did not come up) is      *)
+(* silent.                                                                              *)
 EXTENDS Integers, Sequences, FiniteSets, TLC
 
 CONSTANTS MaxIf,        \* maximal number of configured interfaces
           MaxGen,       \* maximal number of (re)starts
-          RestartRule,  \* DESIGN parameter: "stop_old" (proposed) | "leak" (as implemented)
-          PortRule      \* DESIGN parameter: "opened" (as implemented) | "configured"
+          RestartRule,  \* DESIGN parameter: "stop_old" (as repaired) | "leak"
+          PortRule      \* DESIGN parameter: "opened" (as implemented) | "configured" | "sticky"
 
-Kinds == {"tcp_up", "tcp_fail", "ws_up", "ws_fail"}
+Schemes == {"tcp", "ws"}
 
-VARIABLES cfg,      \* sequence of interface kinds
+VARIABLES cfg,      \* sequence of interface schemes
+          up,       \* indices of the interfaces that are open now
+          ever,     \* indices that were open in some generation (only used by the "sticky" design)
           phase,    \* "down" | "up" | "stopped"
           gen,      \* number of (re)starts so far
           live,     \* generations whose responder thread still runs
+          given,    \* generation -> port indices handed to its responder
           last      \* observable outcome of the last operation (incl. a probe request)
-wvars == <<cfg, phase, gen, live, last>>
+wvars == <<cfg, up, ever, phase, gen, live, given, last>>
 
-Opened(c) == {i \in 1 .. Len(c) : c[i] \in {"tcp_up", "ws_up"}}
-TcpOpened(c) == {i \in 1 .. Len(c) : c[i] = "tcp_up"}
-TcpConfigured(c) == {i \in 1 .. Len(c) : c[i] \in {"tcp_up", "tcp_fail"}}
-Ports(c) == IF PortRule = "opened" THEN TcpOpened(c) ELSE TcpConfigured(c)
+Tcp(c) == {i \in 1 .. Len(c) : c[i] = "tcp"}
+(* the ports a responder started now is given *)
+Ports(c, u, ev) == CASE PortRule = "opened" -> Tcp(c) \cap u
+                     [] PortRule = "configured" -> Tcp(c)
+                     [] PortRule = "sticky" -> Tcp(c) \cap (ev \cup u)
+(* the server gives up when it believes no interface is open *)
+Serving(u, ev) == IF PortRule = "sticky" THEN (ev \cup u) # {} ELSE u # {}
 
 (* what the property allows as answers to a probe request *)
-Demanded(c, ph, g) == IF ph = "up" THEN {<<g, i>> : i \in TcpOpened(c)} ELSE {}
+Demanded(c, u, ph, g) == IF ph = "up" THEN {<<g, i>> : i \in Tcp(c) \cap u} ELSE {}
 (* what the design produces: every running responder answers for the ports it was given *)
-Answers(c, lv) == {<<g, i>> : g \in lv, i \in Ports(c)}
+Answers(lv, gv) == UNION {{<<g, i>> : i \in gv[g]} : g \in lv}
 
-Seqs(n) == UNION {[1 .. k -> Kinds] : k \in 1 .. n}
-WInit == /\ cfg \in Seqs(MaxIf) /\ phase = "down" /\ gen = 0 /\ live = {}
-         /\ last = [kind |-> "none"]
+Seqs(n) == UNION {[1 .. k -> Schemes] : k \in 1 .. n}
+WInit == /\ cfg \in Seqs(MaxIf) /\ up = {} /\ ever = {} /\ phase = "down" /\ gen = 0 /\ live = {}
+         /\ given = <<>> /\ last = [kind |-> "none"]
 
-Boot == /\ phase = "down"
-        /\ IF Opened(cfg) = {}
-           THEN phase' = "stopped" /\ gen' = gen /\ live' = {}        \* "no interface started"
-           ELSE phase' = "up" /\ gen' = 1 /\ live' = {1}
-        /\ last' = [kind |-> "boot", listening |-> IF Opened(cfg) = {} THEN {} ELSE TcpOpened(cfg),
-                    answers |-> Answers(cfg, live')]
-        /\ UNCHANGED cfg
+(* (re)start with the interfaces u coming up *)
+Come(kind, u) ==
+    /\ up' = u /\ ever' = ever \cup u
+    /\ IF Serving(u, ever)
+       THEN /\ phase' = "up" /\ gen' = gen + 1
+            /\ live' = (IF RestartRule = "stop_old" THEN {} ELSE live) \cup {gen + 1}
+            /\ given' = Append(given, Ports(cfg, u, ever))
+       ELSE /\ phase' = "stopped" /\ gen' = gen                    \* "no interface started": run() returns
+            /\ live' = IF RestartRule = "stop_old" THEN {} ELSE live
+            /\ given' = given
+    /\ last' = [kind |-> kind, answers |-> Answers(live', given')]
+    /\ UNCHANGED cfg
 
-Restart == /\ phase = "up" /\ gen < MaxGen
-           /\ gen' = gen + 1
-           /\ live' = (IF RestartRule = "stop_old" THEN {} ELSE live) \cup {gen + 1}
-           /\ last' = [kind |-> "restart", listening |-> TcpOpened(cfg), answers |-> Answers(cfg, live')]
-           /\ UNCHANGED <<cfg, phase>>
+Boot == phase = "down" /\ \E u \in SUBSET (1 .. Len(cfg)) : Come("boot", u)
+Restart == phase = "up" /\ gen < MaxGen /\ \E u \in SUBSET (1 .. Len(cfg)) : Come("restart", u)
 
 Shutdown == /\ phase = "up"
-            /\ phase' = "stopped"
+            /\ phase' = "stopped" /\ up' = {}
             /\ live' = IF RestartRule = "stop_old" THEN {} ELSE live \ {gen}
-            /\ last' = [kind |-> "shutdown", listening |-> {}, answers |-> Answers(cfg, live')]
-            /\ UNCHANGED <<cfg, gen>>
+            /\ last' = [kind |-> "shutdown", answers |-> Answers(live', given)]
+            /\ UNCHANGED <<cfg, ever, gen, given>>
 
 WNext == Boot \/ Restart \/ Shutdown
 WSpec == WInit /\ [][WNext]_wvars
 
 OneResponder == IF phase = "up" THEN live = {gen} ELSE live = {}
-AnswersTrue == last.kind # "none" => last.answers = Demanded(cfg, phase, gen)
+AnswersTrue == last.kind # "none" => last.answers = Demanded(cfg, up, phase, gen)
 =============================================================================
